@@ -16,6 +16,7 @@ import (
 )
 
 var appendTo []props.CorpusEntry
+var total int
 
 func main() {
 	dir := os.Args[1]
@@ -74,14 +75,37 @@ func main() {
 		specs = append(specs, spec{"TEXT", e, "prose", n, 65536, 32, false, 1})
 		specs = append(specs, spec{"RLT", e, "runs", n / 2, 16384, 0, false, 1})
 	}
+	// large block-size PARAMETERS with little data: the parameter sizes hash tables and selects
+	// thresholds inside several codecs (TEXT, TPAQ, ROLZ, LZ), so it is part of the format
+	for i, l := range levels {
+		te := strings.Split(l, "&")
+		bs := []int{4 << 20, 1 << 20, 256 << 10}[i%3]
+		if strings.HasPrefix(te[1], "TPAQ") {
+			bs = 1 << 20
+		}
+		specs = append(specs, spec{te[0], te[1], "prose", 50000, bs, 32, false, 1})
+	}
+	for _, e := range []string{"HUFFMAN", "ANS0", "ANS1", "FPAQ", "CM", "RANGE", "NONE"} {
+		specs = append(specs, spec{"TEXT", e, "prose", 45000, 512 << 10, 0, false, 1})
+		specs = append(specs, spec{"TEXT+UTF+BWT+RANK+ZRLT", e, "prose", 45000, 128 << 10, 32, false, 1})
+	}
+	for _, t := range []string{"LZ", "LZX", "LZP", "ROLZ", "ROLZX", "BWT", "TEXT", "UTF", "EXE", "MM"} {
+		specs = append(specs, spec{t, "HUFFMAN", shapeFor[t], 50000, 2 << 20, 32, false, 1})
+	}
 	if len(os.Args) > 2 && os.Args[2] == "append" {
 		// keep the entries already archived byte for byte: only new specs are added
 		var old []props.CorpusEntry
 		if raw, err := os.ReadFile(filepath.Join(dir, "index.json")); err == nil {
 			json.Unmarshal(raw, &old)
 		}
-		specs = specs[len(old):]
+		done := len(old)
+		if raw, err := os.ReadFile(filepath.Join(dir, "nspecs.txt")); err == nil {
+			fmt.Sscanf(string(raw), "%d", &done) // specs already processed (some are skipped by the reference)
+		}
+		total = len(specs)
+		specs = specs[done:]
 		appendTo = old
+		defer func() { os.WriteFile(filepath.Join(dir, "nspecs.txt"), []byte(fmt.Sprint(total)), 0o644) }()
 	}
 	index := appendTo
 	for i, s := range specs {
